@@ -70,21 +70,25 @@ static void on_thread(const char* scen, const char* cfg, const std::function<voi
     led::Snap s1 = led::snap();
     report(scen, cfg, s0, s1, 0, 0, 0);
 }
-static void objects() {      // every alloc/new/delete pair of the public allocation API on small objects
-    led::Snap s0 = led::snap();
+static void objects_body() {      // every alloc/new/delete pair of the public allocation API on small objects
     { LweParams* lp = new_LweParams(7, 0, 1); LweSample* a = new_LweSample(lp); LweSample* b = new_LweSample_array(3, lp); LweKey* k = new_LweKey(lp); LweKeySwitchKey* ks = new_LweKeySwitchKey(5, 2, 2, lp);
       TLweParams* tp = new_TLweParams(16, 2, 0, 1); TLweSample* t = new_TLweSample(tp); TLweSample* ta = new_TLweSample_array(2, tp); TLweKey* tk = new_TLweKey(tp); TLweParams* tp2 = new_TLweParams(1024, 1, 0, 1); TLweSampleFFT* tf = new_TLweSampleFFT(tp2);
       TGswParams* gp = new_TGswParams(2, 4, tp); TGswSample* g = new_TGswSample(gp); TGswKey* gk = new_TGswKey(gp); IntPolynomial* ip = new_IntPolynomial_array(3, 16); TorusPolynomial* pp = new_TorusPolynomial(16);
       LagrangeHalfCPolynomial* lh = new_LagrangeHalfCPolynomial_array(2, 1024);
       delete_LagrangeHalfCPolynomial_array(2, lh); delete_TorusPolynomial(pp); delete_IntPolynomial_array(3, ip); delete_TGswKey(gk); delete_TGswSample(g); delete_TGswParams(gp);
       delete_TLweSampleFFT(tf); delete_TLweParams(tp2); delete_TLweKey(tk); delete_TLweSample_array(2, ta); delete_TLweSample(t); delete_TLweParams(tp); delete_LweKeySwitchKey(ks); delete_LweKey(k); delete_LweSample_array(3, b); delete_LweSample(a); delete_LweParams(lp); }
-    led::Snap s1 = led::snap();
-    report("objects", "small", s0, s1, 0, 0, 0);
+}
+// first on the calling thread (whatever the library allocates once per process or per thread happens here, window not strict), then on a fresh thread inside a
+// strict window: nothing may outlive that thread
+static void objects() {
+    led::Snap s0 = led::snap(); objects_body(); led::Snap s1 = led::snap();
+    report("objects", "small", s0, s1, 0, 0, 0, 0);
+    on_thread("objects-thread", "small", []() { objects_body(); });
 }
 // polynomial-level routines at the exponents and sizes where index arithmetic degenerates (first / second half empty): under --guard an access one past a
 // coefficient array faults, and red zones see the writes
-static void polyops() {
-    led::Snap s0 = led::snap(); uint64_t h = 11;
+static uint64_t polyops_body() {
+    uint64_t h = 11;
     { int Ns[3] = {256, 512, 1024};
       for (int q = 0; q < 3; q++) { int N = Ns[q];
         TorusPolynomial* a = new_TorusPolynomial(N); TorusPolynomial* r = new_TorusPolynomial(N); IntPolynomial* ia = new_IntPolynomial(N); IntPolynomial* ir = new_IntPolynomial(N);
@@ -96,8 +100,13 @@ static void polyops() {
         torusPolynomialAddMulZ(r, a, 0, a); torusPolynomialSubMulZTo(r, -3, a); torusPolynomialAddTo(r, a); h = hPoly(r, h);
         if (N == 1024) { torusPolynomialMultFFT(r, ia, a); torusPolynomialAddMulRFFT(r, ia, a); torusPolynomialSubMulRFFT(r, ia, a); }     // (FFT results differ in the last bits between back-ends: not hashed)
         delete_TorusPolynomial(a); delete_TorusPolynomial(r); delete_IntPolynomial(ia); delete_IntPolynomial(ir); } }
-    led::Snap s1 = led::snap();
-    report("polyops", "N=256,512,1024", s0, s1, h, 0, 0);
+    return h;
+}
+static void polyops() {      // as above: first run not strict (a routine may keep per-thread scratch between calls), then a fresh thread in a strict window
+    led::Snap s0 = led::snap(); uint64_t h = polyops_body(); led::Snap s1 = led::snap();
+    report("polyops", "N=256,512,1024", s0, s1, h, 0, 0, 0);
+    s0 = led::snap(); uint64_t h2 = 0; { std::thread t([&]() { h2 = polyops_body(); }); t.join(); } s1 = led::snap();
+    report("polyops-thread", "N=256,512,1024", s0, s1, h2, 0, 0);
 }
 static void threads(int T) {  // per-thread FFT state must be released when the thread exits
     led::Snap s0 = led::snap();
